@@ -143,3 +143,61 @@ func C03_ThenOther[T signal.SignalTypes]() {
 	base.SetSample(k, vf.Any[T]("v"))
 	vf.Assert("unrelated-buffer-not-aliased-to-old-storage", vf.SameBits(q.Sample(j), want[j]))
 }
+
+// C03_AppendBig: growth of a destination beyond the small-buffer regime of the growth policy (>= 256 samples,
+// several size classes). The shape is a case split (channels, source length as a fraction of the destination,
+// destination full or with spare frames); the last destination and the last source sample are symbolic.
+func C03_AppendBig[T signal.SignalTypes]() {
+	C := vf.Pick("C", 1, vf.Param("MaxC", 3))
+	K := vf.Param("BigFrames", 300)
+	spare := vf.Pick("spare", 0, 1) * (K / 8)
+	base := signal.Alloc[T](signal.Allocator{Channels: C, Length: K, Capacity: K})
+	dst := base.Slice(0, K-spare)
+	var ks int
+	switch vf.Pick("ksel", 0, 7) {
+	case 0:
+		ks = 1
+	case 1:
+		ks = K / 4
+	case 2:
+		ks = K / 2
+	case 3:
+		ks = 3 * K / 4
+	case 4:
+		ks = K - 1
+	case 5:
+		ks = K
+	case 6:
+		ks = K + K/3
+	default:
+		ks = 2*K + 1
+	}
+	src := signal.Alloc[T](signal.Allocator{Channels: C, Length: ks, Capacity: ks})
+	dl, dcap, sl, scap := dst.Len(), dst.Cap(), src.Len(), src.Cap()
+	// positions are concrete (last sample of each): a symbolic index into ~1000-sample storage does not decide in time
+	k, j := dl-1, sl-1
+	v, w := vf.Any[T]("v"), vf.Any[T]("w")
+	dst.SetSample(k, v)
+	src.SetSample(j, w)
+	dst.Append(src)
+	vf.Assert("len-grows-by-source-len", dst.Len() == dl+sl)
+	vf.Assert("length-grows-by-source-length", dst.Length() == K-spare+ks)
+	vf.Assert("capacity-whole-frames", dst.Cap()%C == 0 && dst.Cap() >= dst.Len() && dst.Capacity()*C == dst.Cap())
+	vf.Assert("source-shape-unchanged", src.Len() == sl && src.Cap() == scap)
+	vf.Assert("source-contents-unchanged", vf.SameBits(src.Sample(j), w))
+	vf.Assert("old-then-source", vf.SameBits(dst.Sample(k), v) && vf.SameBits(dst.Sample(dl+j), w))
+	if dl+sl <= dcap {
+		vf.Cover("in-place")
+		vf.Assert("in-place-capacity-unchanged", dst.Cap() == dcap)
+		vf.Assert("other-views-see-appended", vf.SameBits(base.Sample(dl+j), w))
+	} else {
+		vf.Cover("grown")
+		var zero T
+		if spare > 0 {
+			vf.Assert("old-storage-untouched", vf.SameBits(base.Sample(dl), zero))
+		}
+		dst.SetSample(k, vf.Any[T]("v2"))
+		vf.Assert("moved-view-detached", vf.SameBits(base.Sample(k), v))
+	}
+	vf.Assert("parent-shape", base.Len() == C*K && base.Cap() == C*K)
+}
